@@ -528,6 +528,32 @@ impl<'w> ChainSim<'w> {
 
 	/// Common post-conditions of a byzantine delivery.
 	fn after_bad(&mut self, n: usize, hash: grin_core::core::hash::Hash, header_bad: bool, kind: &str) -> Result<(), Violation> {
+		if let Some(twin) = self.world.bad.iter().find(|b| b.hash == hash && b.kind == kind).and_then(|b| b.twin_of) {
+			// an altered copy of an honest block: the hash may be known, what is stored under it must be
+			// the honest header and (if at all) the honest body
+			let honest = &self.world.blocks[twin].block;
+			if let Ok(h) = self.nodes[n].chain().get_block_header(&hash) {
+				let a = grin_core::ser::ser_vec(&h, grin_core::ser::ProtocolVersion::local()).unwrap_or_default();
+				let b = grin_core::ser::ser_vec(&honest.header, grin_core::ser::ProtocolVersion::local()).unwrap_or_default();
+				if a != b && (self.oracles.reject_bad || self.oracles.twin) {
+					return Err(self.viol(
+						&format!("altered-header-stored:{}", kind),
+						format!("node {} stores an altered copy of header #{} ({}) under the honest hash", n, twin, kind),
+					));
+				}
+			}
+			if let Ok(blk) = self.nodes[n].chain().get_block(&hash) {
+				if blk.header.timestamp != honest.header.timestamp || blk.header.prev_root != honest.header.prev_root {
+					if self.oracles.reject_bad || self.oracles.twin {
+						return Err(self.viol(
+							&format!("altered-block-stored:{}", kind),
+							format!("node {} stores an altered copy of block #{} ({}) under the honest hash", n, twin, kind),
+						));
+					}
+				}
+			}
+			return Ok(());
+		}
 		let stored = self.nodes[n].chain().get_block_header(&hash).is_ok();
 		if header_bad {
 			if stored && (self.oracles.reject_bad || self.oracles.twin) {
@@ -728,7 +754,8 @@ impl<'w> ChainSim<'w> {
 						cls
 					);
 				}
-				if self.oracles.reject_bad && header_bad && res.is_ok() {
+				let twin_known = self.world.bad[*bad].twin_of.map(|t| self.models[n].headers.contains(&t) || self.models[n].accepted.contains(&t)).unwrap_or(false);
+				if self.oracles.reject_bad && header_bad && res.is_ok() && !twin_known {
 					return Err(self.viol(
 						&format!("bad-header-accepted:{}", kind),
 						format!("node {} accepted an invalid header ({}) on parent #{} through process_block_header", n, kind, self.world.bad[*bad].parent),
@@ -766,17 +793,20 @@ impl<'w> ChainSim<'w> {
 						cls
 					);
 				}
-				if self.oracles.reject_bad && header_bad && res.is_ok() {
+				let twin_known = self.world.bad[*bad].twin_of.map(|t| self.models[n].headers.contains(&t) || self.models[n].accepted.contains(&t)).unwrap_or(false);
+				if self.oracles.reject_bad && header_bad && res.is_ok() && !twin_known {
 					return Err(self.viol(
 						&format!("bad-header-batch-accepted:{}", kind),
 						format!("node {} accepted a header batch whose last header is invalid ({})", n, kind),
 					));
 				}
 				if res.is_ok() {
-					// (only reachable for valid headers of invalid blocks) the honest prefix is now known
-					let m = &mut self.models[n];
+					// (only reachable for valid headers of invalid blocks, or for a batch that ends in a
+					// header the node already has and is waved through unread) what is stored is known
 					for i in ids {
-						m.headers.insert(*i);
+						if self.nodes[n].chain().get_block_header(&self.world.blocks[*i].hash).is_ok() {
+							self.models[n].headers.insert(*i);
+						}
 					}
 				} else if self.oracles.reject_bad || self.oracles.twin {
 					// the whole batch must have been rolled back: no new header of it is stored
